@@ -660,6 +660,10 @@ pub fn run(args: &Args) {
             ("京都に行った<br><br>東京都に行った\n".as_bytes().to_vec(), "C", false, false, "yes"),
             ("京都<BR><BR><BR>東京都\n京都・・東京都\n".as_bytes().to_vec(), "A", true, false, "yes"),
             ("京都に行った・・・東京都に行った\n京都<br><br>東京\n".as_bytes().to_vec(), "C", false, true, "only"),
+            // one line longer than the tokenizer's input limit (49,149 bytes), made of short sentences of 22 bytes: no sentence
+            // ends at the limit, and the line is analysed sentence by sentence
+            (format!("{}\n京都\n", "東京都に行った。".repeat(2800)).into_bytes(), "C", true, false, "yes"),
+            (format!("{}\n", "京都に行った。a".repeat(3000)).into_bytes(), "A", false, false, "yes"),
         ];
         // directed: what the path-rewrite plugins join (numerals, katakana runs) must come out the same in every output format
         for t in ["123円\n", "1,000.5円に2024年\n", "アイアイウ\n", "東京都に12.5行った。京都に3,000行った\n", "二千五百万と六三四\n"] {
